@@ -223,6 +223,31 @@ def corruptions(rng, pdu, n):
     return out
 
 
+def custom_codec_case(rng):
+    """custom_codecs={'ucs2': <little-endian UTF-16>}: a text that does not fit the default alphabet (automatic encoding: the
+    UCS2 fall-back) or an explicit ucs2 must be encoded with the codec it will be decoded with"""
+    import codecs
+    from aiosmpplib.protocol import SubmitSm, DeliverSm, SmppMessage
+    le = codecs.lookup('utf-16-le')
+    custom = {'ucs2': le}
+    cls = rng.choice((SubmitSm, DeliverSm))
+    text = rng.choice(('Привет', 'жж€', 'abc', '日本語テキスト', 'x' * 100 + 'ж'))
+    enc = rng.choice((None, None, 'ucs2'))
+    m = cls(short_message=text, encoding=enc, sequence_num=rng.randrange(1, 1000))
+    fail = None
+    try:
+        m.set_encoding_info('gsm0338', custom)
+        pdu = m.pdu()
+        back = cls.from_pdu(pdu, SmppMessage.parse_header(pdu[:16]), 'gsm0338', custom)
+        got = back.short_message or back.message_payload
+        if got != text:
+            fail = 'with a custom codec for ucs2, %s (encoding %r) reads back as %s' % (ascii(text), enc, ascii(got))
+    except Exception as e:      # noqa
+        fail = 'with a custom codec for ucs2, %s (encoding %r): %r' % (ascii(text), enc, e)
+    line = '# custom-codec %s %r %s' % (cls.__name__, enc, ascii(text))
+    return Case(line, line, ('custom-codec', cls.__name__, enc, text.isascii()), fail, {'op': 'custom', 'note': line})
+
+
 def generate(rng, tier):
     thorough = tier == 'thorough'
     n = 4000 if thorough else 900
@@ -233,6 +258,15 @@ def generate(rng, tier):
             m = L.rand_other(rng)
         else:
             m = L.rand_sm(rng, rng.choice(('SubmitSm', 'SubmitSm', 'DeliverSm')))
+        if i % 5 == 3 and type(m).__name__ == 'SubmitSm' and m.message_payload and not m.short_message and m.error_handling == 'strict':
+            # ... and for a message whose text is in message_payload the Sender encodes the empty short_message and hands that back
+            try:
+                m.set_encoding_info(default, None)
+                _enc0 = m.encoding
+                m.set_encoded_message(m.smpp_encode(m.short_message))
+                m.encoding = _enc0
+            except Exception:      # noqa
+                pass
         if i % 5 == 1 and type(m).__name__ == 'SubmitSm' and m.short_message and not m.message_payload and m.encoding is None \
                 and m.error_handling == 'strict':
             # the way the Sender serialises an unsplit message when auto_message_payload is off: smpp_encode() first (which
@@ -258,6 +292,9 @@ def generate(rng, tier):
                 yield dec_case(pdu, rng.choice(('', 'ucs2', 'ascii', 'gsm0338')), 'own-otherdefault')
             if len(pdus) < 60:
                 pdus.append((pdu, default))
+    # a custom codec registered for ucs2 (custom_codecs of ESME): whatever encodes must be what decodes (predicate only)
+    for _ in range(60 if thorough else 20):
+        yield custom_codec_case(rng)
     # values the constructor accepts but the wire format does not
     for _ in range(1500 if thorough else 400):
         try:
